@@ -634,6 +634,7 @@ func (b *wfBuilder) makeItem(i int) {
 		it.Kind = "func"
 		it.Name = fmt.Sprintf("ProvideT%d", i)
 		it.Out = b.spell(i)
+
 		for _, d := range nd.deps {
 			it.Params = append(it.Params, b.spell(d))
 		}
@@ -1023,6 +1024,37 @@ func (b *wfBuilder) makeSetsAndInjectors() {
 			}
 		}
 		b.s.Injectors = append(b.s.Injectors, in)
+	}
+	// a provider function may live in another package than its result type:
+	// only functions that injectors list directly move (a set of another
+	// package could not import them back)
+	inSet := map[int]bool{}
+	var walk func(rs []Ref)
+	walk = func(rs []Ref) {
+		for _, r := range rs {
+			if r.Item >= 0 {
+				inSet[r.Item] = true
+			}
+			if r.IsInline() {
+				walk(r.Inline)
+			}
+		}
+	}
+	for _, st := range b.s.Sets {
+		walk(st.Args)
+	}
+	for _, in := range b.s.Injectors {
+		for _, r := range in.Args {
+			if r.IsInline() {
+				walk(r.Inline)
+			}
+		}
+	}
+	for ii := range b.s.Items {
+		it := &b.s.Items[ii]
+		if it.Kind == "func" && it.Pkg > 0 && !inSet[ii] && b.pct(40, "provpkg") {
+			it.Pkg = b.intn(0, it.Pkg-1, "provpkgidx")
+		}
 	}
 	// the ProdSet/TestSet pattern: a second set that differs from a named set
 	// in one provider function, and a second injector built from it
